@@ -118,8 +118,12 @@ def one_graph(drv, g, desc, res, tag, ffp):
     if not close(rec["rhs"], -b, 1e-9):
         bad("gradient", impl=(-rec["rhs"]).tolist(), model=b.tolist())
         return
-    if not close(rec["A"], H, 1e-9) or (np.all(np.isfinite(H)) and not np.array_equal(rec["A"] != 0, H != 0)):
-        bad("hessian", fixed=mfixed, impl_pattern=(rec["A"] != 0).astype(int).tolist(), model_pattern=(H != 0).astype(int).tolist())
+    # zero pattern: an entry counts as present when it is above rounding level relative to the largest entry (with diagonal
+    # information matrices a structurally cancelling entry such as c*s*w - s*c*w is exactly 0 in one evaluation order and 1e-17 in
+    # another: seen in the thorough tier on the unchanged tree after diagonal information was added to the generator)
+    nz = lambda M_: np.abs(M_) > 1e-12 * (1.0 + (np.nanmax(np.abs(M_)) if np.size(M_) else 0.0))
+    if not close(rec["A"], H, 1e-9) or (np.all(np.isfinite(H)) and not np.array_equal(nz(rec["A"]), nz(H))):
+        bad("hessian", fixed=mfixed, impl_pattern=nz(rec["A"]).astype(int).tolist(), model_pattern=nz(H).astype(int).tolist())
         return
     pw = parts[4].split()
     k = 0
